@@ -24,6 +24,28 @@ GOENV = {
 }
 
 
+def run_in_own_group(cmd, cwd, timeout):
+    """Runs a command in its own process group and kills the whole group afterwards: the proof
+    system's back ends (z3, Zenon, Isabelle) can outlive tlapm when an obligation fails, and a
+    runaway prover must not be left behind.  Returns the combined output, or None on timeout."""
+    import signal
+    p = subprocess.Popen(cmd, cwd=cwd, stdout=subprocess.PIPE, stderr=subprocess.STDOUT, text=True, start_new_session=True)
+    try:
+        out, _ = p.communicate(timeout=timeout)
+    except subprocess.TimeoutExpired:
+        out = None
+    finally:
+        try:
+            os.killpg(p.pid, signal.SIGKILL)
+        except (ProcessLookupError, PermissionError):
+            pass
+        try:
+            p.wait(timeout=10)
+        except Exception:
+            pass
+    return out
+
+
 def _geo_fatal(err):
     """(kind, function) if the text is a Go fatal-error dump whose stack shows golang/geo, else None."""
     m = re.search(r"fatal error: ([^\n]+)", err)
@@ -141,11 +163,9 @@ class Ctx:
             t = t.replace(edit[0], edit[1]).replace("MODULE " + module, "MODULE " + name)
             open(os.path.join(d, name + ".tla"), "w").write(t)
         t0 = time.time()
-        try:
-            p = subprocess.run(["tlapm", "--threads", "12", name + ".tla"], cwd=d, capture_output=True, text=True, timeout=timeout)
-        except subprocess.TimeoutExpired:
+        out = run_in_own_group(["tlapm", "--threads", "12", name + ".tla"], d, timeout)
+        if out is None:
             raise Infra("tlapm timed out on %s" % name)
-        out = (p.stdout or "") + (p.stderr or "")
         m = re.search(r"All (\d+) obligations? proved", out)
         f = re.search(r"(\d+)/(\d+) obligations? failed", out)
         self.log("TLAPS %s: %s, %.1fs" % (name, m.group(0) if m else (f.group(0) if f else "no verdict"), time.time() - t0))
